@@ -36,6 +36,8 @@ type thCase struct {
 	Calls   int      `json:"calls"`
 	Oracle  []string `json:"oracle_fail,omitempty"`
 	Line    string   `json:"-"`
+	// Children() of every looked-up key in returned order (not part of the model's case line; compared across replays)
+	ChildrenOrder string `json:"-"`
 }
 
 func u256(v uint64) *uint256.Int { return uint256.NewInt(v) }
@@ -270,6 +272,24 @@ func genHistory(r *rng.R, nops int, exhaustiveSmall bool) thCase {
 		writePath(a, p)
 		impl.DumpKey(l, k)
 		l.Close()
+		if k != nil {
+			// C16: the child records come back in the same, specified order as their index keys
+			ci, ch := k.ChildrenIndices(), k.Children()
+			if len(ci) != len(ch) {
+				cs.Oracle = append(cs.Oracle, fmt.Sprintf("C16: Children() returns %d records, ChildrenIndices() %d keys", len(ch), len(ci)))
+			}
+			cl := items.New("CH")
+			for i := range ch {
+				impl.DumpKey(cl, ch[i])
+				if i < len(ci) {
+					path := append(append([][]byte{}, p[1:]...), ci[i])
+					if want := tr.StateChanges().FindKeyIndices(a, string(p[0]), path...); want != ch[i] {
+						cs.Oracle = append(cs.Oracle, fmt.Sprintf("C16: Children()[%d] is not the record of index key %x (ChildrenIndices()[%d]): the two lists are ordered differently", i, ci[i], i))
+					}
+				}
+			}
+			cs.ChildrenOrder += cl.String() + ";"
+		}
 	}
 	qVariable := func(a common.Address, p [][]byte) {
 		c := tr.StateChanges().Variable(a, string(p[0]), p[1:]...)
